@@ -102,6 +102,16 @@ def bnot(a):
     return a ^ ONE
 
 
+def _and_operands(x):
+    """Operands of a conjunction: a single and-atom contributes its operand set."""
+    if len(x) == 1:
+        (a,) = x
+        p = _atoms[a]
+        if p[0] == "and":
+            return p[1]
+    return frozenset((x,))
+
+
 def band(a, b):
     if not a or not b:
         return ZERO
@@ -113,11 +123,34 @@ def band(a, b):
         return a
     if a == (b ^ ONE):
         return ZERO
-    # canonical operand order
-    ka, kb = _bitkey(a), _bitkey(b)
-    if kb < ka:
-        a, b = b, a
-    return abit(("and", a, b))
+    ops = _and_operands(a) | _and_operands(b)
+    for x in ops:
+        if (x ^ ONE) in ops:
+            return ZERO
+    if len(ops) == 1:
+        (x,) = ops
+        return x
+    return abit(("and", ops))
+
+
+def band_n(bits):
+    """n-ary conjunction (associative, commutative, idempotent by construction)."""
+    ops = set()
+    for b in bits:
+        if not b:
+            return ZERO
+        if b == ONE:
+            continue
+        ops |= _and_operands(b)
+    for x in ops:
+        if (x ^ ONE) in ops:
+            return ZERO
+    if not ops:
+        return ONE
+    if len(ops) == 1:
+        (x,) = ops
+        return x
+    return abit(("and", frozenset(ops)))
 
 
 def bor(a, b):
@@ -148,6 +181,14 @@ def bite(c, a, b):
         return c
     if not a and b == ONE:
         return c ^ ONE
+    if not b:
+        return band(c, a)
+    if not a:
+        return band(c ^ ONE, b)
+    if a == ONE:
+        return bor(c, b)
+    if b == ONE:
+        return bor(c ^ ONE, a)
     return abit(("ite", c, a, b))
 
 
@@ -297,6 +338,24 @@ def lin(width, terms, c=0):
     acc = {t: k for t, k in acc.items() if k}
     if not acc:
         return const(c, width)
+    # low bits that are constant in every operand are computed exactly; the rest is a narrower sum
+    kmin = width
+    for t in acc:
+        n = 0
+        for b in t:
+            if b and b != ONE:
+                break
+            n += 1
+        kmin = min(kmin, n)
+        if kmin == 0:
+            break
+    if 0 < kmin < width:
+        low = c
+        lowmask = (1 << kmin) - 1
+        for t, k in acc.items():
+            low += k * (const_value(t[:kmin]) or 0)
+        upper = lin(width - kmin, [(t[kmin:], k) for t, k in acc.items()], low >> kmin)
+        return const(low & lowmask, kmin) + upper
     if len(acc) == 1 and c == 0:
         (t, k), = acc.items()
         if k == 1:
@@ -354,6 +413,17 @@ def carry_add(a, b):
         return ONE if (ca + cb) >> w else ZERO
     if ca == 0 or cb == 0:
         return ZERO
+    # three-valued ripple: the carry-out is often decided by the constant bits alone
+    cy = 0          # 0, 1 or None (unknown)
+    for x, y in zip(a, b):
+        vx = 0 if not x else (1 if x == ONE else None)
+        vy = 0 if not y else (1 if y == ONE else None)
+        vals = (vx, vy, cy)
+        ones = sum(1 for v in vals if v == 1)
+        zeros = sum(1 for v in vals if v == 0)
+        cy = 1 if ones >= 2 else (0 if zeros >= 2 else None)
+    if cy is not None:
+        return ONE if cy else ZERO
     ka, kb = _bvkey(a), _bvkey(b)
     if kb < ka:
         a, b = b, a
@@ -389,10 +459,8 @@ def cmp_bit(op, a, b):
         # eq decomposes bitwise only for single bits
         if w == 1:
             return a[0] ^ b[0] ^ ONE
-        ka, kb = _bvkey(a), _bvkey(b)
-        if kb < ka:
-            a, b = b, a
-        return abit(("cmp", "eq", a, b))
+        # canonical whatever the word grouping: conjunction of the (linear) bit equalities
+        return band_n(x ^ y ^ ONE for x, y in zip(a, b))
     if op in ("ugt", "sgt"):
         return cmp_bit(op[0] + "lt", b, a)
     if op in ("uge", "sge"):
@@ -449,7 +517,11 @@ class Evaluator:
         if k == "in":
             r = (self.inputs[p[1]] >> p[2]) & 1
         elif k == "and":
-            r = self.bit(p[1]) & self.bit(p[2])
+            r = 1
+            for x in p[1]:
+                if not self.bit(x):
+                    r = 0
+                    break
         elif k == "sum":
             r = (self.sumval(p[1]) >> p[2]) & 1
         elif k == "carry":
@@ -519,7 +591,8 @@ def support(bv, limit=100000):
         if k == "in":
             out.add((p[1], p[2]))
         elif k == "and":
-            stack.extend(p[1]); stack.extend(p[2])
+            for x in p[1]:
+                stack.extend(x)
         elif k == "sum":
             for t, _ in _sum_nodes[p[1]][1]:
                 for b in t:
@@ -561,7 +634,8 @@ def show_atom(a, depth=2):
     if depth <= 0:
         return "#%d" % a
     if k == "and":
-        return "(%s&%s)" % (show_bit(p[1], depth - 1), show_bit(p[2], depth - 1))
+        ops = sorted(p[1], key=_bitkey)
+        return "(" + "&".join(show_bit(x, depth - 1) for x in ops[:6]) + ("&...%d" % len(ops) if len(ops) > 6 else "") + ")"
     if k == "sum":
         return "%s[%d]" % (show_sum(p[1], depth - 1), p[2])
     if k == "carry":
